@@ -16,7 +16,7 @@ import (
 // MV is a model value of the store-passing reference evaluator (the sub-language
 // of C07/C20: integers, strings, booleans, null, arrays).
 type MV struct {
-	K string `json:"k"` // null int str bool arr fn (S = rec | rec2)
+	K string `json:"k"` // null int str bool arr fn (S = rec | rec2) self (the data map itself)
 	I int64  `json:"i,omitempty"`
 	S string `json:"s,omitempty"`
 	B bool   `json:"b,omitempty"`
@@ -45,6 +45,8 @@ func (v MV) String() string {
 		return "[" + strings.Join(p, ", ") + "]"
 	case "fn":
 		return "function"
+	case "self":
+		return "this"
 	}
 	return "?"
 }
@@ -87,6 +89,9 @@ func mvMatches(m MV, got interface{}) bool {
 		return got == m.S
 	case "bool":
 		return got == m.B
+	case "self":
+		_, isMap := got.(map[string]interface{})
+		return isMap
 	case "fn":
 		return got != nil && reflect.TypeOf(got).Kind() == reflect.Func
 	case "arr":
@@ -135,6 +140,8 @@ type refEval struct {
 	Store    map[string]MV // the data map including $-locals
 	Log      []MV
 	Assigned map[string]bool // names bound by an assignment so far (when non-nil)
+	ThisNull bool            // the runner has no data map: `this` is null
+	Self     bool            // `this` is a value (the store itself): `$s = this`, `$s.x`, `$s.$s.x`
 }
 
 func (e *refEval) eval(n *ref.Node) (MV, error) {
@@ -158,6 +165,13 @@ func (e *refEval) eval(n *ref.Node) (MV, error) {
 			return MV{K: "bool", B: true}, nil
 		case "false":
 			return MV{K: "bool", B: false}, nil
+		case "this":
+			if e.ThisNull {
+				return mvNull, errUnspec // `this` as a value on a runner without a data map (a nil map, neither null nor a map): left open
+			}
+			if e.Self {
+				return MV{K: "self"}, nil
+			}
 		}
 		return mvNull, errUnspec
 	case "id":
@@ -199,12 +213,32 @@ func (e *refEval) eval(n *ref.Node) (MV, error) {
 			}
 			return mvNull, nil
 		}
+		if e.Self {
+			base, err := e.eval(n.Kids[0])
+			if err != nil {
+				return mvNull, err
+			}
+			switch base.K {
+			case "self":
+				if v, ok := e.Store[n.S]; ok {
+					return v, nil
+				}
+				return mvNull, nil
+			case "null":
+				if n.Op == "!." {
+					return mvNull, errModel
+				}
+				return mvNull, nil
+			}
+		}
 		return mvNull, errUnspec
 	case "call":
 		if n.Kids[0].K == "id" && n.Kids[0].S == "nofn" && len(n.Kids) == 1 && !n.Spread {
 			return mvNull, errModel // calling a name that is not defined: an error (C03), nothing else happens
 		}
-		if n.Kids[0].K != "id" || len(n.Kids) < 2 || n.Spread {
+		if n.Kids[0].K != "id" || len(n.Kids) < 2 || (n.Spread && len(n.Kids) != 2) {
+			// rec/rec2 are purely variadic: with `...` the array is the only written argument (more written arguments
+			// than parameters under spread is left open by the bridge statement)
 			return mvNull, errUnspec
 		}
 		// the callee stands left of its arguments: it is read first (an assignment to the same local inside
@@ -219,12 +253,23 @@ func (e *refEval) eval(n *ref.Node) (MV, error) {
 		// rec(a, b, ...): arguments left to right, one log entry per call, value = last argument;
 		// rec2(a, b, ...): the same, logged with a leading "rec2", value = first argument
 		var args []MV
-		for _, a := range n.Kids[1:] {
+		for i, a := range n.Kids[1:] {
 			v, err := e.eval(a)
 			if err != nil {
 				return mvNull, err
 			}
+			if n.Spread && i == len(n.Kids)-2 {
+				// f(a, xs...): the last argument, evaluated once like any other, is spread over the variadic tail
+				if v.K != "arr" {
+					return mvNull, errUnspec
+				}
+				args = append(args, v.A...)
+				continue
+			}
 			args = append(args, v)
+		}
+		if len(args) == 0 {
+			return mvNull, errModel // rec() / rec2() without arguments fail
 		}
 		if callee.S == "rec2" {
 			e.Log = append(e.Log, MV{K: "arr", A: append([]MV{{K: "str", S: "rec2"}}, args...)})
@@ -296,6 +341,7 @@ type subGen struct {
 	AnyNames  []string // non-local names of any kind
 	ThisKeys  []string
 	FnLocals  []string // hold rec or rec2 (callee position)
+	NoSpread  bool     // no spread calls (data maps without rec/rec2)
 }
 
 func defaultSubGen(r *rand.Rand) *subGen {
@@ -397,6 +443,15 @@ func (g *subGen) anyExpr(d int) *ref.Node {
 	case 2:
 		return ref.Bin("=", ref.ID(g.pick(g.AnyLocals)), g.anyExpr(d-1))
 	case 3:
+		if !g.NoSpread && g.r.Intn(3) == 0 {
+			// a spread call: the array operand (with its assignments) is evaluated exactly once
+			n := 1 + g.r.Intn(3)
+			el := make([]*ref.Node, n)
+			for i := range el {
+				el[i] = g.intExpr(d - 1)
+			}
+			return ref.Call(ref.ID([]string{"rec", "rec2"}[g.r.Intn(2)]), true, ref.Arr(el...))
+		}
 		return ref.Call(ref.ID("rec"), false, g.anyExpr(d-1))
 	case 4:
 		return ref.Cond(g.anyExpr(d-1), g.anyExpr(d-1), g.anyExpr(d-1))
